@@ -28,6 +28,7 @@ EXPLANATION = (
     ' (R4, revised) the stop test of the flow-safe scan is judged only when windows are not recorded under a positive-excess guard; (R8, round 4) C17.R1 / R2 for the reachability caches the pruning reads, and the full-coverage guard of C05.R10.'
     ' (R4, hunt 4) the excess of the flow-safe scan is compared with a tolerance scaled by the magnitude of the values (math.ulp), never with 0 or a constant; an exact assertion on the excess needs exact readers.'
     ' (R7, hunt 5) the readers of the flow-safe scan apply Fraction() only to values without as_integer_ratio() (np.longdouble survives .item() and Fraction() rejects it).'
+    ' (R4, hunt 7) where the readers convert numpy scalars the unit of the excess tolerance also covers the spacing of numpy floats in their own type (np.float32).'
 )
 DECIDED = ["mutate/restore pairing of the shared adjacency structure", "lock discipline of the per-worker pools",
            "multiplicity guard and protection-set construction conform to the reviewed description"]
@@ -485,6 +486,32 @@ def scan_reads_python_numbers(prog: Program, rep, RID: str):
         raise AnalysisError("flow-safe paths: neither raw arithmetic on the bounds nor a reader returning Python numbers was found")
 
 
+def tolerance_unit_covers_narrow_floats(prog: Program, rep, RID: str):
+    """The readers of the scan accept numpy scalars (`.item()`), so np.float32 values arrive as the Python float nearest to a *float32* - off from the decimal
+    they stand for by up to half a float32 unit, 2**29 units in the last place of that Python float.  A tolerance built from math.ulp of the converted
+    values alone is below that noise: a zero excess reads as positive and a window that is not safe is reported.  Where the readers convert numpy scalars,
+    the unit of the tolerance also takes the spacing of the raw values in their own type (numpy.spacing / finfo of the dtype)."""
+    f = prog.function("flowpaths.utils.safetyflowdecomp", "compute_inexact_flow_decomp_safe_paths")
+    converts_numpy = any(isinstance(x, ast.Attribute) and x.attr == "item" for fd in ast.walk(f.node) if isinstance(fd, ast.FunctionDef) and fd is not f.node for x in ast.walk(fd))
+    tol = [st for st in ast.walk(f.node) if isinstance(st, ast.Assign) and any(isinstance(t, ast.Name) and re.search(r"toler|eps", t.id) for t in st.targets) and
+           re.search(r"\b(ulp|spacing|nextafter|finfo)\b", norm(st.value))]
+    key = "compute_inexact_flow_decomp_safe_paths:tolerance-unit-of-narrow-floats"
+    if not converts_numpy:
+        rep.ok(RID, key, "the readers do not convert numpy scalars", f.loc())
+        return
+    if not tol:
+        raise AnalysisError("flow-safe paths: definition of the scaled tolerance not found")
+    from rules.common import all_local_defs, substitute_locals
+    defs = all_local_defs(f.node)
+    txt = " ".join(norm(substitute_locals(st.value, defs)) for st in tol)
+    if re.search(r"\b(spacing|finfo)\b", txt) and "dtype" in txt:
+        rep.ok(RID, key, "the unit also covers the spacing of numpy floats in their own type", f.loc(tol[0]))
+    else:
+        rep.violation(RID, key, f"`{norm(tol[0])[:110]}` takes its unit from math.ulp of the values as Python floats only, while the readers accept numpy scalars: a np.float32 "
+                      "value is off by up to 2**29 such units, so a window of excess 0 (flows 0.004, 0.004 -> 0.004, 0.001, 0.003 as np.float32) reads as +1.2e-10, is reported "
+                      "as flow-safe, and optimize_with_safety_as_subpath_constraints makes kFlowDecomp(k=3) infeasible", f.loc(tol[0]))
+
+
 def readers_take_every_number(prog: Program, rep, RID: str):
     """The readers of the excess-flow scan turn non-integers into fractions.  `Fraction(value)` takes int, float, Decimal, Fraction and str only: a real number
     without a Python counterpart (np.longdouble: `.item()` returns it unchanged) raises TypeError, although it has an exact ratio (`as_integer_ratio()`).
@@ -551,6 +578,7 @@ def check(prog: Program, rep):
     conformance(prog, rep, "C06.R3", "C05")
     rep.rule("C06.R4", "flow-safe paths: the excess-flow threshold is strict positivity", floor=1)
     flow_safety_threshold(prog, rep, "C06.R4")
+    tolerance_unit_covers_narrow_floats(prog, rep, "C06.R4")
     rep.rule("C06.R5", "index-specific safety effects presuppose interchangeable walks: rejected / switched off when given weights pin walks to indices", floor=2)
     slot_symmetry(prog, rep, "C06.R5")
     rep.rule("C06.R6", "flow-safe paths are used only for decompositions of the whole flow: nothing ignored, flow conserved, internal graph (C10.R8)", floor=2)
